@@ -6,6 +6,7 @@ Nothing here imports from the library except the client classes under test."""
 from __future__ import annotations
 
 import asyncio
+import gc
 import heapq
 import signal
 import threading
@@ -203,7 +204,8 @@ class FakeTransport(asyncio.Transport):
         if g.fail_write_armed:
             g.fail_write_armed = False
             self.conn.write_failed_at = idx
-            g.log.append(("write_failed", self.conn.cid, idx))
+            g.log.append(("write_failed", self.conn.cid, idx, round(self._loop.time(), 6)))
+            self.conn.write_failed_t = self._loop.time()
             self._force_close(OSError(32, "Broken pipe (injected)"))
             return
         self.conn.written.append(bytes(data))
@@ -473,6 +475,7 @@ class Session:
         n = self.status_count
         self.status_count += 1
         self.obs.status.append((round(self.loop.time(), 6), state.name))
+        self.gw.log.append(("status", state.name, round(self.loop.time(), 6)))
         m = self._mode(self.status_cb_mode, n)
         if m == "raise":
             raise RuntimeError("status callback failed (injected)")
@@ -570,6 +573,7 @@ class Session:
                         self.redundant = True      # 'just before the timer' only exists at a quiescent boundary with a timer
                     else:
                         self.loop.advance_to(nt - 1e-6)
+                self.gw.log.append(("special", name, round(self.loop.time(), 6)))
                 ok = self.specials[name](self)
                 if ok is False:
                     self.redundant = True
@@ -686,13 +690,25 @@ class Session:
             pass
 
 
+_runs = [0]
+
+
 def run_session(**kw):
+    """GC of reference cycles is taken out of the executions (it would close stale transports at
+    arbitrary points); cycles are collected between executions, while no loop is installed."""
+    if _runs[0] == 0:
+        gc.collect()
+        gc.freeze()
+        gc.disable()
+    _runs[0] += 1
     s = Session(**kw)
     obs = s.run()
+    if _runs[0] % 200 == 0:
+        gc.collect()
     return s, obs
 
 
-def explore_placements(make_kwargs, special_names, k, on_execution, late_points=True, start_at=0):
+def explore_placements(make_kwargs, special_names, k, on_execution, late_points=True, start_at=0, first_names=None):
     """Depth-first enumeration of all placements of <= k distinct specials over the
     boundaries of the (deviated) executions.  make_kwargs(deviations) -> kwargs for Session.
     on_execution(deviations, session, obs).  Returns number of executions (incl. redundant)."""
@@ -720,7 +736,7 @@ def explore_placements(make_kwargs, special_names, k, on_execution, late_points=
         total = i + 1  # one more boundary: the final quiescent one
         for bnd in range(first_b, total):
             kind = bidx[bnd][1] if bnd < len(bidx) else "end"
-            for name in special_names:
+            for name in (first_names if (first_names is not None and not devs) else special_names):
                 if name in used:
                     continue
                 rec(devs + [(bnd, name, False)], used | {name}, bnd)
